@@ -177,7 +177,8 @@ def run_text_part(ctx: Ctx) -> None:
         """shorthand = [(gate, [literals])] in program order (each on qubit q); every one must come back negated"""
         c = tsim.Circuit(text)
         inv = c.inverse()
-        inv_tags = [(ins.name, ins.tag) for ins in inv._stim_circ if ins.name == "I" and ins.tag]
+        # one entry per target application (Stim fuses identical neighbouring instructions into one with repeated targets)
+        inv_tags = [(ins.name, ins.tag) for ins in inv._stim_circ if ins.name == "I" and ins.tag for _t in ins.targets_copy()]
         want = [(g, ref_neg_tag_values(g, ls)) for g, ls in reversed(shorthand)]
         if len(inv_tags) != len(want):
             return f"inverse has {len(inv_tags)} tagged I instructions, expected {len(want)}: {str(inv)!r}"
@@ -192,7 +193,7 @@ def run_text_part(ctx: Ctx) -> None:
                 return f"inverse tag {tag!r} parses to {r!r}, exact inverse is ({g!r}, {vals!r})"
         # double inverse: original angles (up to the normal form of the literal)
         inv2 = inv.inverse()
-        back = [ppt(ins.tag) for ins in inv2._stim_circ if ins.name == "I" and ins.tag]
+        back = [ppt(ins.tag) for ins in inv2._stim_circ if ins.name == "I" and ins.tag for _t in ins.targets_copy()]
         orig = [(g, dict(zip(("theta", "phi", "lambda"), [dec_value(l) for l in ls]))) for g, ls in shorthand]
         if [(b[0], b[1]) if b else None for b in back] != orig:
             return f"inverse().inverse() carries {back!r}, original {orig!r}"
@@ -238,8 +239,11 @@ def run_text_part(ctx: Ctx) -> None:
             if r < 0.3:
                 g = rng.choice(["R_Z", "R_X", "R_Y", "U3"])
                 ls = [gen_angle_literal(rng) for _ in range(3 if g == "U3" else 1)]
-                lines.append(f"{g}({', '.join(ls)}) {q}")
-                shorthand.append((g, ls))
+                # broadcast / repeated targets, and sometimes the same line twice (fused by Stim into repeated targets)
+                qs = [q] + ([rng.randrange(nq) for _ in range(rng.randint(1, 2))] if rng.random() < 0.4 else [])
+                for _rep in range(2 if rng.random() < 0.25 else 1):
+                    lines.append(f"{g}({', '.join(ls)}) " + " ".join(map(str, qs)))
+                    shorthand += [(g, ls)] * len(qs)
                 seen_gates.add(g)
             elif r < 0.42:
                 g = rng.choice(["T", "T_DAG"])
